@@ -26,7 +26,9 @@ EXPLANATION = (
     "against both the separator and the supernode nu it is paired with, so the clique blocks determined by the solve are not "
     "overwritten, and the cliques are visited root-first (descending post-order) there and in the compact row layout; (R6) the "
     "aggregate sparsity mask marks every row with a stored entry of A and every row with b != 0 (either sign); (R7) the overlap "
-    "counts used to average the dual in the standard-form reversal are aligned with the list of overlapped rows.")
+    "counts used to average the dual in the standard-form reversal are aligned with the list of overlapped rows."
+    " (R8) psd_completion completes, for each pattern, the z block of original cone number pattern.orig_index; (R9) data updates are refused for every decomposed problem, compact or standard (C08.R1 re-run)."
+    " (R10) C17.R8 re-run (Kruskal on intersection weights); (R11) compact reversal: the s and z statements of each block copy address identical positions.")
 ASSUMPTIONS = ['rustc MIR construction and trait resolution are correct',
                'the sdp code is analysed by type-checking only (cargo check with empty blas-src/lapack-src); it is never linked or run']
 
@@ -504,6 +506,76 @@ def overlap_average(rep, F, tag):
     R.guard(body)
 
 
+def completion_target(rep, F, tag):
+    """Only decomposed PSD cones carry a sparsity pattern; a pattern knows its cone through orig_index (an index into the *original*
+    cone list).  The dual completion must therefore address z by the row range of cone number pattern.orig_index of init_cones -
+    pairing patterns positionally with "the PSD cones" hits the wrong block as soon as a dense PSD cone precedes a decomposed one."""
+    R = rep.rule('C18.R8', 'psd_completion completes, for each pattern, the z block of the original cone pattern.orig_index')
+
+    def body():
+        f = F.one(name='psd_completion')
+        n = 0
+        for val, ret, ev, tr in Walker(f, cut_loops=True).leaves():
+            for e in ev:
+                if e[0] == 'call' and e[1] == 'complete':
+                    n += 1
+                    a = split_args(str(e[2]))
+                    pat = a[1]
+                    m = re.fullmatch(r'index_mut\(arg2\.z, (.*)\)', a[0])
+                    rng = m.group(1) if m else ''
+                    # the range expression: selected out of rng_cones_iter(init_cones) by this pattern's orig_index, with no positional pairing
+                    ok = ('rng_cones_iter(self.init_cones)' in rng and ('%s.orig_index' % pat) in rng and 'zip(' not in rng and 'filter(' not in rng and 'enumerate(' not in rng)
+                    R.check(ok and 'self.spatterns' in pat, 'block-by-orig-index' + tag,
+                            'psd_completion completes %s for the pattern %s: the block must be the row range of the original cone number '
+                            'pattern.orig_index (init_cones), not a positional pairing' % (a[0][:160], pat[:60]), f.loc())
+        R.check(n >= 1, 'complete-call' + tag, 'no complete() call found in psd_completion', f.loc())
+
+    R.guard(body)
+
+
+def reversal_index_agreement(rep, F, tag):
+    """Compact-form reversal copies each clique block of the decomposed (s, z) back into the original cone's rows.  Slack and dual travel
+    together: the write into new_s and the write into new_z must address the same position (the cone's row offset + the packed
+    triangle offset) and read the same position of the decomposed vector (block pointer + running counter).  Sibling-agreement rule
+    on the two statements, modulo the vector names."""
+    R = rep.rule('C18.R11', 'compact reversal: the s and z statements of each block copy address identical positions (row offset + triangle offset <- block pointer + counter)')
+
+    def body():
+        n = 0
+        for nm, tgt_s, src_s, tgt_z, src_z in (('add_blocks_with_sparsity_pattern', 'arg1', 'arg2', 'arg3', 'arg4'), ('add_blocks_with_cone', 'arg1', 'arg2', 'arg3', 'arg4')):
+            fs = [f for f in F.find(name=nm) if 'reverse_compact' in f.file]
+            if len(fs) != 1:
+                raise AnchorError('%s matched %d functions' % (nm, len(fs)))
+            f = fs[0]
+            S, Z = set(), set()
+            for val, ret, ev, tr in Walker(f, cut_loops=True).leaves():
+                for e in ev:
+                    if e[0] == 'store':
+                        t, v = str(e[1]), str(e[2])
+                    elif e[0] == 'call' and e[1] in ('add_assign', 'copy_from', 'copy_from_slice'):
+                        a = split_args(str(e[2]))
+                        t, v = a[0], a[1]
+                    else:
+                        continue
+                    t = t.replace('withoverflow', '').replace(').0', ')')
+                    v = v.replace('withoverflow', '').replace(').0', ')')
+                    if re.search(r'\b%s\b' % tgt_s, t) and re.search(r'\b%s\b' % src_s, v):
+                        S.add((re.sub(r'\b%s\b' % tgt_s, 'NEW', t), re.sub(r'\b%s\b' % src_s, 'OLD', v)))
+                    elif re.search(r'\b%s\b' % tgt_z, t) and re.search(r'\b%s\b' % src_z, v):
+                        Z.add((re.sub(r'\b%s\b' % tgt_z, 'NEW', t), re.sub(r'\b%s\b' % src_z, 'OLD', v)))
+            n += 1
+            R.check(len(S) == 1 and S == Z, 'same-positions|%s%s' % (nm, tag),
+                    '%s copies the slack with %s but the dual with %s: both must go to the same position of the original cone (row offset of the cone + offset in the '
+                    'packed triangle) from the same position of the decomposed vector' % (nm, sorted(S)[:1], sorted(Z)[:1]), f.loc())
+            if nm == 'add_blocks_with_sparsity_pattern' and len(S) == 1:
+                t, v = list(S)[0]
+                R.check(('arg5' in t) and ('arg9' in v and 'counter' in v), 'offsets-present|%s%s' % (nm, tag),
+                        '%s writes %s from %s: the target must be offset by the cone\'s row range and the source by the block pointer and the running counter' % (nm, t[:100], v[:80]), f.loc())
+        R.check(n == 2, 'count' + tag, '%d block-copy routines analysed' % n)
+
+    R.guard(body)
+
+
 def run(ctx, rep, tier):
     stage_rules(ctx, rep, 'C18.R1')
     for cfg in (CONFIGS_THOROUGH if tier == 'thorough' else CONFIGS):
@@ -515,6 +587,14 @@ def run(ctx, rep, tier):
         completion_disjoint(rep, F, tag)
         sparsity_mask(rep, F, tag)
         overlap_average(rep, F, tag)
+        completion_target(rep, F, tag)
+        reversal_index_agreement(rep, F, tag)
+        # the decomposed problem is equivalent only if the merged cliques still form a clique tree (C17.R8 re-run)
+        from . import c17, c04
+        c17.tree_from_graph(c04._Ren(rep, 'C17.R8', 'C18.R10'), F, tag)
+        # updates must be refused for every decomposed problem, compact or standard (C08.R1 re-run)
+        from . import c08, c04
+        c08.gate(c04._Ren(rep, 'C08.R1', 'C18.R9'), F, tag)
     from . import c05
     for cfg in CONFIGS:
         c05.hash_order(rep, ctx.facts(cfg), ctx.cg(cfg), '[%s]' % cfg)
